@@ -1863,9 +1863,45 @@ fn have_prlimit() -> bool {
 
 const AS_LIMIT: u64 = 4 << 30;
 
-impl Worker {
-    fn spawn() -> Worker {
+/// The harness is built with debug assertions and overflow checks; dashu guards several
+/// preconditions only by `debug_assert!` or by arithmetic that merely overflows (e.g. `ln` of a
+/// negative number).  To observe what an ordinary release build does, the same binary is built a
+/// second time with both switched off ("plain" worker) into `<target dir>-plain`.
+fn plain_exe() -> &'static std::path::PathBuf {
+    static P: OnceLock<std::path::PathBuf> = OnceLock::new();
+    P.get_or_init(|| {
         let exe = std::env::current_exe().unwrap_or_else(|e| infra(&format!("current_exe: {e}")));
+        // <target>/release/c16
+        let target = exe.parent().and_then(|p| p.parent()).unwrap_or_else(|| infra("cannot locate the target directory"));
+        let plain_target = std::path::PathBuf::from(format!("{}-plain", target.display()));
+        let ws = std::path::Path::new(env!("CARGO_MANIFEST_DIR")).parent().unwrap().to_path_buf();
+        let out = Command::new("cargo")
+            .current_dir(&ws)
+            .args(["build", "--release", "--bin", "c16", "--target-dir"])
+            .arg(&plain_target)
+            .env("CARGO_PROFILE_RELEASE_DEBUG_ASSERTIONS", "false")
+            .env("CARGO_PROFILE_RELEASE_OVERFLOW_CHECKS", "false")
+            .env("CARGO_NET_OFFLINE", "true")
+            .env("CARGO_TERM_COLOR", "never")
+            .env("RUSTFLAGS", std::env::var("RUSTFLAGS").unwrap_or_else(|_| "--cfg dashu_verif".into()))
+            .output()
+            .unwrap_or_else(|e| infra(&format!("cannot run cargo for the plain worker: {e}")));
+        if !out.status.success() {
+            let err = String::from_utf8_lossy(&out.stderr);
+            let tail: Vec<&str> = err.lines().filter(|l| l.starts_with("error") || l.contains("-->")).take(8).collect();
+            infra(&format!("build of the plain worker (no debug assertions / overflow checks) failed: {}", truncate(&tail.join(" | "), 600)));
+        }
+        let p = plain_target.join("release").join("c16");
+        if !p.exists() {
+            infra(&format!("plain worker binary missing: {}", p.display()));
+        }
+        p
+    })
+}
+
+impl Worker {
+    fn spawn(plain: bool) -> Worker {
+        let exe = if plain { plain_exe().clone() } else { std::env::current_exe().unwrap_or_else(|e| infra(&format!("current_exe: {e}"))) };
         let mut cmd = if have_prlimit() {
             let mut c = Command::new("prlimit");
             c.arg(format!("--as={AS_LIMIT}")).arg("--").arg(&exe).arg("--worker");
@@ -1992,18 +2028,20 @@ impl Drop for Worker {
     }
 }
 
-static POOL: Mutex<Vec<Worker>> = Mutex::new(Vec::new());
+static POOLS: [Mutex<Vec<Worker>>; 2] = [Mutex::new(Vec::new()), Mutex::new(Vec::new())];
 
-fn pool_take() -> Worker {
-    let w = POOL.lock().unwrap().pop();
-    w.unwrap_or_else(Worker::spawn)
+fn pool_take(plain: bool) -> Worker {
+    let w = POOLS[plain as usize].lock().unwrap().pop();
+    w.unwrap_or_else(|| Worker::spawn(plain))
 }
-fn pool_give(w: Worker) {
-    POOL.lock().unwrap().push(w);
+fn pool_give(plain: bool, w: Worker) {
+    POOLS[plain as usize].lock().unwrap().push(w);
 }
 fn pool_shutdown() {
-    let ws: Vec<Worker> = std::mem::take(&mut *POOL.lock().unwrap());
-    drop(ws);
+    for p in &POOLS {
+        let ws: Vec<Worker> = std::mem::take(&mut *p.lock().unwrap());
+        drop(ws);
+    }
 }
 
 /// what the parent observed for one call
@@ -2023,6 +2061,8 @@ enum Obs {
 const LIMIT1: Duration = Duration::from_secs(10);
 const LIMIT2: Duration = Duration::from_secs(30);
 const LIMIT_KNOWN: Duration = Duration::from_secs(2);
+/// inputs that are not small can only ever be inconclusive: do not wait long for them
+const LIMIT_BIG: Duration = Duration::from_secs(3);
 
 enum Once {
     Ret(String),
@@ -2056,23 +2096,23 @@ fn is_mem_panic(m: &str) -> bool {
 }
 
 /// run one case under supervision; `small` and `known_hang` come from the precondition table
-fn observe(c: &Case, small: bool, known_hang: bool) -> Obs {
+fn observe(c: &Case, small: bool, known_hang: bool, plain: bool) -> Obs {
     let line = serde_json::to_string(c).unwrap_or_else(|e| infra(&format!("cannot encode case: {e}")));
-    let mut w = pool_take();
-    let first = one_call(&mut w, &line, if known_hang { LIMIT_KNOWN } else { LIMIT1 });
+    let mut w = pool_take(plain);
+    let first = one_call(&mut w, &line, if known_hang { LIMIT_KNOWN } else if small { LIMIT1 } else { LIMIT_BIG });
     match first {
         Once::Ret(v) => {
-            pool_give(w);
+            pool_give(plain, w);
             Obs::Ret(v)
         }
         Once::Panic(m) => {
-            pool_give(w);
+            pool_give(plain, w);
             if is_mem_panic(&m) {
                 if !small {
                     return Obs::Inconclusive(format!("memory exhausted on an input that is not small: {}", normalise(&m)));
                 }
                 // confirm in a fresh worker (the address-space cap is per process)
-                let mut f = Worker::spawn();
+                let mut f = Worker::spawn(plain);
                 let again = one_call(&mut f, &line, LIMIT2);
                 let r = match again {
                     Once::Panic(m2) if is_mem_panic(&m2) => Obs::Mem(format!("panicked with {}", normalise(&m2))),
@@ -2082,7 +2122,7 @@ fn observe(c: &Case, small: bool, known_hang: bool) -> Obs {
                     Once::Infra(e) => infra(&e),
                 };
                 if matches!(again_alive(&r), true) {
-                    pool_give(f);
+                    pool_give(plain, f);
                 }
                 r
             } else {
@@ -2101,7 +2141,7 @@ fn observe(c: &Case, small: bool, known_hang: bool) -> Obs {
             if cpu_s < 0.5 * wall_s {
                 return Obs::Inconclusive(format!("no answer within {:.0} s but the worker only got {:.1} s CPU (machine overloaded)", wall_s, cpu_s));
             }
-            let mut f = Worker::spawn();
+            let mut f = Worker::spawn(plain);
             match one_call(&mut f, &line, LIMIT2) {
                 Once::Timeout { cpu_s: c2, wall_s: w2 } => {
                     drop(f);
@@ -2113,11 +2153,11 @@ fn observe(c: &Case, small: bool, known_hang: bool) -> Obs {
                 }
                 Once::Dead(s) => Obs::Mem(format!("no answer within {:.0} s; in a fresh worker the process died: {s}", wall_s)),
                 Once::Panic(m) if is_mem_panic(&m) => {
-                    pool_give(f);
+                    pool_give(plain, f);
                     Obs::Mem(format!("no answer within {:.0} s; in a fresh worker: {}", wall_s, normalise(&m)))
                 }
                 Once::Ret(_) | Once::Panic(_) => {
-                    pool_give(f);
+                    pool_give(plain, f);
                     Obs::Inconclusive(format!("no answer within {:.0} s but answered within {} s in a fresh worker", wall_s, LIMIT2.as_secs()))
                 }
                 Once::Infra(e) => infra(&e),
@@ -2128,16 +2168,16 @@ fn observe(c: &Case, small: bool, known_hang: bool) -> Obs {
             if !small {
                 return Obs::Inconclusive(format!("worker died on an input that is not small: {s}"));
             }
-            let mut f = Worker::spawn();
+            let mut f = Worker::spawn(plain);
             match one_call(&mut f, &line, LIMIT2) {
                 Once::Dead(s2) => Obs::Mem(format!("worker died twice: {s2}")),
                 Once::Timeout { wall_s, .. } => Obs::Mem(format!("worker died ({s}); in a fresh worker no answer within {:.0} s", wall_s)),
                 Once::Panic(m) if is_mem_panic(&m) => {
-                    pool_give(f);
+                    pool_give(plain, f);
                     Obs::Mem(format!("worker died ({s}); in a fresh worker: {}", normalise(&m)))
                 }
                 Once::Ret(_) | Once::Panic(_) => {
-                    pool_give(f);
+                    pool_give(plain, f);
                     Obs::Inconclusive(format!("worker died once ({s}), not reproduced in a fresh worker"))
                 }
                 Once::Infra(e) => infra(&e),
